@@ -46,7 +46,7 @@ def sKitty : Str := [107, 105, 116, 116, 121]
 def sIterm2 : Str := [105, 116, 101, 114, 109, 50]
 def sKonsole : Str := [107, 111, 110, 115, 111, 108, 101]
 
-inductive Err | valueError | termImageError | attributeError
+inductive Err | valueError | termImageError | attributeError | runtimeError
 deriving DecidableEq, Repr
 
 /-- the identity of the terminal: fixed over a history -/
@@ -350,6 +350,14 @@ def tscCall (s : Core) : Core × Val × List Ev :=
     else (s, stampVal v, [])
   | none => ({ s with tsc := some (tscBody s.win, ts) }, stampVal (tscBody s.win), [.bTsc])
 
+/-- the same wrapper when the body raises (if it has to run): `cache = (func(…), ts)` is never
+    reached, so the cache is left exactly as it was; a hit returns the cached value -/
+def tscRaiseCall (s : Core) : Core × Val × List Ev :=
+  let ts := (s.win.cols, s.win.rows)
+  match s.tsc with
+  | some (v, ts') => if ts ≠ ts' then (s, .err .runtimeError, [.bTsc]) else (s, stampVal v, [])
+  | none => (s, .err .runtimeError, [.bTsc])
+
 /-- `cached_wrapper` around a body that returns its global run index -/
 def probeCall (s : Core) (a : Nat) : Core × Val × List Ev :=
   match s.probe a with
@@ -368,6 +376,8 @@ inductive Op
   | getCellSize | getCellRatio | getColors (k : CKey) | getNV | isOnKitty
   | kittySup | itermSup
   | tsc | tscInval | probe (a : Nat) | probeInval
+  | tscRaise      -- a probe call whose body raises if it runs
+  | startProc     -- `multiprocessing.Process.start` (rebinds the cache to a shared Array with the same content)
 deriving DecidableEq, Repr
 
 /-- lift a `Core` operation -/
@@ -396,6 +406,8 @@ def step (T : Term) (s : St) : Op → St × Val × List Ev
   | .itermSup => itermSupported T s
   | .tsc => s.lift (tscCall s.toCore)
   | .tscInval => ({ s with tsc := none }, .unit, [])
+  | .tscRaise => s.lift (tscRaiseCall s.toCore)
+  | .startProc => (s, .unit, [])
   | .probe a => s.lift (probeCall s.toCore a)
   | .probeInval => ({ s with probe := fun _ => none, rProbe := fun _ => 0 }, .unit, [])
 
@@ -453,7 +465,7 @@ def tscGhostStep (s : St) (g : Option Win) : Op → Option Win
 def tscProviso (T : Term) : St → Option Win → List Op → Prop
   | _, _, [] => True
   | s, g, op :: ops =>
-    (op = .tsc → provisoAt g s.win) ∧ tscProviso T (step T s op).1 (tscGhostStep s g op) ops
+    ((op = .tsc ∨ op = .tscRaise) → provisoAt g s.win) ∧ tscProviso T (step T s op).1 (tscGhostStep s g op) ops
 
 def tscGhostRun (T : Term) : St → Option Win → List Op → Option Win
   | _, g, [] => g
@@ -523,6 +535,71 @@ def coarse (arg : Nat → Nat) (s : CSt) (t : Nat) : CSt :=
 def runC (arg : Nat → Nat) (s : CSt) (sched : List Nat) : CSt := sched.foldl (coarse arg) s
 
 end Conc
+
+
+/-! ## a toggle racing a concurrent `get_cell_size()`
+
+The toggle (`enable/disable_win_size_swap`, `enable_queries`) is the sequence of atomic steps the
+translator reads off its AST (`Generated.*Steps`): write the flag (outside the lock), take
+`_cell_size_lock`, clear the cache, release.  The reader is `get_cell_size()` in another thread:
+take the lock, look the cache up, on a miss read the flag (inside the lock) and compute, store,
+release.  The cache content is abstracted to the flag value it was computed under. -/
+namespace Race
+
+inductive TStep | setFlag | lock | clear | unlock
+deriving DecidableEq, Repr
+
+def decodeStep : Nat → Option TStep
+  | 0 => some .setFlag | 1 => some .lock | 2 => some .clear | 3 => some .unlock | _ => none
+
+def decode (l : List Nat) : List TStep := l.filterMap decodeStep
+
+inductive Who | T | R
+deriving DecidableEq, Repr
+
+inductive RPC
+  | start | locked | miss | got (f : Bool) | rel | done
+deriving DecidableEq, Repr
+
+structure RSt where
+  flag : Bool                -- `_swap_win_size` / `_queries_enabled`
+  cache : Option Bool        -- none = cleared; some f = filled by a computation that saw flag `f`
+  owner : Option Who         -- holder of `_cell_size_lock`
+  pc : Nat                   -- index of the toggle's next step
+  rpc : RPC
+  rval : Option Bool         -- what the reader returned was computed under this flag
+deriving DecidableEq, Repr
+
+def RSt.init (n : Bool) (cache : Option Bool) : RSt :=
+  { flag := !n, cache := cache, owner := none, pc := 0, rpc := .start, rval := none }
+
+/-- one step of the toggle (towards flag value `n`) or of the reader; blocked/finished = stutter -/
+def rstep (prog : List TStep) (n : Bool) (s : RSt) : Who → RSt
+  | .T =>
+    match prog[s.pc]? with
+    | none => s
+    | some .setFlag => { s with flag := n, pc := s.pc + 1 }
+    | some .lock => if s.owner = none then { s with owner := some .T, pc := s.pc + 1 } else s
+    | some .clear => { s with cache := none, pc := s.pc + 1 }
+    | some .unlock => { s with owner := none, pc := s.pc + 1 }
+  | .R =>
+    match s.rpc with
+    | .start => if s.owner = none then { s with owner := some .R, rpc := .locked } else s
+    | .locked =>
+      match s.cache with
+      | some f => { s with rpc := .rel, rval := some f }
+      | none => { s with rpc := .miss }
+    | .miss => { s with rpc := .got s.flag }
+    | .got f => { s with cache := some f, rpc := .rel, rval := some f }
+    | .rel => { s with owner := none, rpc := .done }
+    | .done => s
+
+def rrun (prog : List TStep) (n : Bool) (s : RSt) (sched : List Who) : RSt := sched.foldl (rstep prog n) s
+
+/-- the order the code has (and must have) -/
+def canonical : List TStep := [.setFlag, .lock, .clear, .unlock]
+
+end Race
 
 /-! ## CPython `int / int` (correctly rounded), used by the driver to print `frac w h` -/
 
